@@ -107,6 +107,15 @@ PROPS = {
                                      "(the per-octet plumbing documents no retry); aux buffers designate the region [offset, used)"],
         targets=[enum("enum", ["props/C17_enum.cpp"], qs=12, ts=16)],
     ),
+    "C13": dict(
+        level="exploration",
+        exhaustive_possible=False,
+        rule="cases are (entry point, prefix kind, length / buffer state / chunk list) tuples for the encoders and (decoder, kind, frame lengths, fragmentation, capacity, previous content) "
+             "for the decoders, judged by reference prefix encoders and the designated octets; non-trivial = a buffer with offset > 0 and free space, a chunk list with an empty chunk, "
+             "a fragmentation that splits the prefix, a pre-filled destination, or a length >= 128 / over the maximum; distinct by the serialised case",
+        assumptions=COMMON_ASSUME + ["payload lengths >= 1 (the property's range); zero-length designations are counted as don't-care"],
+        targets=[enum("enum", ["props/C13_enum.cpp"], qs=12, ts=16)],
+    ),
 }
 
 NOTE_COMMON = ("trusted: clang/ASan/UBSan, the harness and its reference model; the search is bounded (see evidence: tier bounds and counts); "
@@ -166,6 +175,14 @@ MANIFEST_TEXT = {
         level_text="Scripted octet- and chunk-style drivers sit on a model stream and record what was really moved, so exactness (no loss, duplication, reordering) is observed "
                    "independently of return values; every behaviour script up to length 5 (thorough 7) is enumerated for the four chunk calls, the nine plumbing calls run over a grid of "
                    "stream lengths, counts, partial/hard-error scripts and aux regions inside exact-size (ASan) blocks.",
+        level_note=NOTE_COMMON,
+    ),
+    "C13": dict(
+        engine="enum",
+        technique="bounded-exhaustive buffer states, chunk lists, lengths and all fragmentations of short streams + random long streams, against reference prefix encoders",
+        level_text="All eight encoder entry points and three decoders are driven for all six prefix kinds: every buffer state of small buffers (so that unread content and free space differ), "
+                   "every n, chunk lists with empty/partly consumed chunks, lengths 1..1100 and the kinds' maxima +-1, and every fragmentation of short multi-frame streams; sinks and destinations "
+                   "are recorded/exact-size so emitted and written octets are compared exactly.",
         level_note=NOTE_COMMON,
     ),
 }
